@@ -48,14 +48,13 @@ class PiecewiseTreeRegressor(DecisionTreeRegressor):
         """
         Replaces the string stored in criterion by an instance of a class.
         """
-        replace = None
+        replace = self.criterion
         if isinstance(self.criterion, str):
             if self.criterion == "mselin":
                 from .piecewise_tree_regression_criterion_linear import (
                     LinearRegressorCriterion,
                 )
 
-                replace = self.criterion
                 self.criterion = LinearRegressorCriterion(
                     1 if len(y.shape) <= 1 else y.shape[1], X
                 )
@@ -64,18 +63,15 @@ class PiecewiseTreeRegressor(DecisionTreeRegressor):
                     SimpleRegressorCriterionFast,
                 )
 
-                replace = self.criterion
                 self.criterion = SimpleRegressorCriterionFast(
                     1 if len(y.shape) <= 1 else y.shape[1], X.shape[0]
                 )
-        else:
-            replace = None
 
-        DecisionTreeRegressor.fit(
-            self, X, y, sample_weight=sample_weight, check_input=check_input
-        )
-
-        if replace:
+        try:
+            DecisionTreeRegressor.fit(
+                self, X, y, sample_weight=sample_weight, check_input=check_input
+            )
+        finally:
             self.criterion = replace
 
         if self.criterion == "mselin":
